@@ -7,11 +7,11 @@
   specification notes of `predFut` that are not ok, separately for runs that so far started the
   closures in hand-out order (`fifo = true`) and those that did not.
 
-  Run on 15 graphs with ≤ 3 nodes (`graphs`), 240 configurations each (6 strategies × incl ×
-  4 limits × 5 API modes), `#eval FG.QSearch.searchGraph i` for `i = 0 … 14`
+  Run on 15 graphs_Q with ≤ 3 nodes (`graphs_Q`), 240 configurations each (6 strategies × incl ×
+  4 limits_Q × 5 API modes_Q), `#eval FG.QSearch.searchGraph i` for `i = 0 … 14`
   (2.2 million product states in total): the ONLY failing note is
       `C09 … processed=started`, and only with `fifo = false`.
-  The `#eval` at the end repeats this for the two 2-node graphs.
+  The `#eval` at the end repeats this for the two 2-node graphs_Q.
 -/
 import FnGraphVerif.Model.Monitor
 import Std.Data.HashSet
@@ -20,7 +20,7 @@ namespace FG.QSearch
 deriving instance DecidableEq for PredSt
 deriving instance Hashable for Strat, IM, Ret, PState, PredSt, ErrMode, Kind, Edge, Dag
 
-def stepEvents' (control : Bool) (s : PState) (a : Action) (s' : PState) : List Ev :=
+def stepEvents'_Q (control : Bool) (s : PState) (a : Action) (s' : PState) : List Ev :=
   match a with
   | .schedPoll => (s'.handedOut.drop s.handedOut.length).map Ev.handout
   | .invoke f => [.invoke f]
@@ -38,13 +38,13 @@ def predMany (x : MonCtx) (m : PredSt) : List Ev → PredSt × List Note
   | [] => (m, [])
   | e :: es => let r := predFut x m e; let r' := predMany x r.1 es; (r'.1, r.2 ++ r'.2)
 
-def actionsOf (n : Nat) : List Action :=
+def actionsOf_Q (n : Nat) : List Action :=
   [.queuerRecv, .queuerEnd, .schedPoll, .schedEnd, .ret, .interrupt] ++
   (List.range n).flatMap (fun f => [.invoke f, .finish f true, .finish f false])
 
-def stripDigits (s : String) : String := String.ofList (s.toList.filter (fun ch => !ch.isDigit))
+def stripDigits_Q (s : String) : String := String.ofList (s.toList.filter (fun ch => !ch.isDigit))
 
-structure Item where
+structure Item_Q where
   s : PState
   m : PredSt
   fifo : Bool
@@ -54,19 +54,19 @@ def isPrefixB (a b : List Nat) : Bool := a.isPrefixOf b
 
 /-- explore; returns list of (key, fifo, example) -/
 partial def explore (x : MonCtx) (tag : String) (maxStates : Nat) :
-    Std.HashSet (PState × PredSt × Bool) → List Item → List (String × Bool × String) → Nat → (List (String × Bool × String) × Nat)
+    Std.HashSet (PState × PredSt × Bool) → List Item_Q → List (String × Bool × String) → Nat → (List (String × Bool × String) × Nat)
   | _, [], acc, cnt => (acc, cnt)
   | vis, it :: rest, acc, cnt =>
     if cnt > maxStates then (("LIMIT", true, tag) :: acc, cnt) else
     let c := x.c
     -- successors
-    let succs : List (Item × List Note) :=
-      (actionsOf c.n).filterMap (fun a =>
+    let succs : List (Item_Q × List Note) :=
+      (actionsOf_Q c.n).filterMap (fun a =>
         match step? c it.s a with
         | none => none
         | some s1 =>
           if a == .interrupt && !(it.s.inflight.all (fun f => decide (f ∈ it.s.invoked))) then none else
-          let evs := stepEvents' x.control it.s a s1
+          let evs := stepEvents'_Q x.control it.s a s1
           let r := predMany x it.m evs
           let m1 := { r.1 with nEv := min r.1.nEv 1 }
           let fifo := it.fifo && isPrefixB s1.invoked s1.handedOut
@@ -75,13 +75,13 @@ partial def explore (x : MonCtx) (tag : String) (maxStates : Nat) :
             let r := predFut x it.m .q
             [({ s := it.s, m := { r.1 with nEv := min r.1.nEv 1 }, fifo := it.fifo, path := "q" :: it.path }, r.2)]
           else [])
-    let (vis, rest, acc) := succs.foldl (fun (st : Std.HashSet (PState × PredSt × Bool) × List Item × List (String × Bool × String)) (p : Item × List Note) =>
+    let (vis, rest, acc) := succs.foldl (fun (st : Std.HashSet (PState × PredSt × Bool) × List Item_Q × List (String × Bool × String)) (p : Item_Q × List Note) =>
       let (vis, rest, acc) := st
       let bad := p.2.filter (fun n => !n.ok)
       let acc := bad.foldl (fun acc n =>
         match n with
         | .prop pr wh _ =>
-          let key := pr ++ ":" ++ stripDigits wh
+          let key := pr ++ ":" ++ stripDigits_Q wh
           if acc.any (fun e => e.1 == key && e.2.1 == p.1.fifo) then acc
           else (key, p.1.fifo, tag ++ " PATH " ++ toString p.1.path.reverse) :: acc
         | _ => acc) acc
@@ -89,46 +89,46 @@ partial def explore (x : MonCtx) (tag : String) (maxStates : Nat) :
       if vis.contains k then (vis, rest, acc) else (vis.insert k, p.1 :: rest, acc)) (vis, rest, acc)
     explore x tag maxStates vis rest acc (cnt + 1)
 
-def mkDecls (g : Dag) : List FnDecl :=
+def mkDecls_Q (g : Dag) : List FnDecl :=
   (List.range g.n).map (fun u =>
     ⟨[], ((List.range g.edges.length).filter (fun i => match g.edges[i]? with | some e => e.src == u || e.tgt == u | none => false)), u⟩)
 
-def countsOf (g : Dag) : List Nat := (List.range g.n).map (fun v => (parents g v).length)
+def countsOf_Q (g : Dag) : List Nat := (List.range g.n).map (fun v => (parents g v).length)
 
-def mkE (l : List (Nat × Nat)) : List Edge := l.map (fun p => ⟨p.1, p.2, .logic⟩)
+def mkE_Q (l : List (Nat × Nat)) : List Edge := l.map (fun p => ⟨p.1, p.2, .logic⟩)
 
-def graphs : List Dag :=
-  [⟨0, []⟩, ⟨1, []⟩, ⟨2, []⟩, ⟨2, mkE [(0,1)]⟩, ⟨2, mkE [(1,0)]⟩,
-   ⟨3, []⟩, ⟨3, mkE [(0,1)]⟩, ⟨3, mkE [(2,0)]⟩, ⟨3, mkE [(0,1),(1,2)]⟩, ⟨3, mkE [(2,1),(1,0)]⟩,
-   ⟨3, mkE [(0,1),(0,2)]⟩, ⟨3, mkE [(0,2),(1,2)]⟩, ⟨3, mkE [(0,1),(1,2),(0,2)]⟩, ⟨3, mkE [(1,0),(1,2)]⟩,
-   ⟨3, mkE [(2,1),(0,1)]⟩]
+def graphs_Q : List Dag :=
+  [⟨0, []⟩, ⟨1, []⟩, ⟨2, []⟩, ⟨2, mkE_Q [(0,1)]⟩, ⟨2, mkE_Q [(1,0)]⟩,
+   ⟨3, []⟩, ⟨3, mkE_Q [(0,1)]⟩, ⟨3, mkE_Q [(2,0)]⟩, ⟨3, mkE_Q [(0,1),(1,2)]⟩, ⟨3, mkE_Q [(2,1),(1,0)]⟩,
+   ⟨3, mkE_Q [(0,1),(0,2)]⟩, ⟨3, mkE_Q [(0,2),(1,2)]⟩, ⟨3, mkE_Q [(0,1),(1,2),(0,2)]⟩, ⟨3, mkE_Q [(1,0),(1,2)]⟩,
+   ⟨3, mkE_Q [(2,1),(0,1)]⟩]
 
-def strats : List Strat := [.non, .ignore, .finish, .pollN 0, .pollN 1, .pollN 2]
-def limits : List (Option Nat) := [none, some 0, some 1, some 2]
-def modes : List (Bool × ErrMode) := [(false, .none), (false, .collect), (true, .none), (true, .collect), (true, .shortCircuit)]
+def strats_Q : List Strat := [.non, .ignore, .finish, .pollN 0, .pollN 1, .pollN 2]
+def limits_Q : List (Option Nat) := [none, some 0, some 1, some 2]
+def modes_Q : List (Bool × ErrMode) := [(false, .none), (false, .collect), (true, .none), (true, .collect), (true, .shortCircuit)]
 
-def cfgs (g : Dag) : List Cfg :=
-  strats.flatMap fun st => [true, false].flatMap fun incl => limits.flatMap fun lim => modes.map fun md =>
-    { D := g, counts0 := countsOf g, limit := lim, sequential := md.1, errMode := md.2, strat := st, incl := incl }
+def cfgs_Q (g : Dag) : List Cfg :=
+  strats_Q.flatMap fun st => [true, false].flatMap fun incl => limits_Q.flatMap fun lim => modes_Q.map fun md =>
+    { D := g, counts0 := countsOf_Q g, limit := lim, sequential := md.1, errMode := md.2, strat := st, incl := incl }
 
-def cfgTag (c : Cfg) : String :=
+def cfgTag_Q (c : Cfg) : String :=
   s!"n={c.D.n} edges={c.D.edges.map (fun e => (e.src, e.tgt))} lim={c.limit} seq={c.sequential} err={reprStr c.errMode} strat={reprStr c.strat} incl={c.incl}"
 
-def runCfg (c : Cfg) (control : Bool) : List (String × Bool × String) × Nat :=
-  let x : MonCtx := { c := c, decls := mkDecls c.D, userD := c.D, rev := false, control := control, interruptible := false, coop := false }
-  let it : Item := { s := init c, m := {}, fifo := true, path := [] }
-  explore x (cfgTag c) 2000000 (({} : Std.HashSet _).insert (it.s, it.m, true)) [it] [] 0
+def runCfg_Q (c : Cfg) (control : Bool) : List (String × Bool × String) × Nat :=
+  let x : MonCtx := { c := c, decls := mkDecls_Q c.D, userD := c.D, rev := false, control := control, interruptible := false, coop := false }
+  let it : Item_Q := { s := init c, m := {}, fifo := true, path := [] }
+  explore x (cfgTag_Q c) 2000000 (({} : Std.HashSet _).insert (it.s, it.m, true)) [it] [] 0
 
-def merge (a b : List (String × Bool × String)) : List (String × Bool × String) :=
+def merge_Q (a b : List (String × Bool × String)) : List (String × Bool × String) :=
   b.foldl (fun acc e => if acc.any (fun e' => e'.1 == e.1 && e'.2.1 == e.2.1) then acc else e :: acc) a
 
-def searchGraph (gi : Nat) : IO Unit := do
-  let g := graphs[gi]!
+def searchGraph_Q (gi : Nat) : IO Unit := do
+  let g := graphs_Q[gi]!
   let mut acc : List (String × Bool × String) := []
   let mut total := 0
-  for c in cfgs g do
-    let r := runCfg c true
-    acc := merge acc r.1
+  for c in cfgs_Q g do
+    let r := runCfg_Q c true
+    acc := merge_Q acc r.1
     total := total + r.2
   IO.println s!"graph {gi}: states {total}"
   for e in acc do
